@@ -295,6 +295,16 @@ func (w *world) buildSend(op kernel.Op) (*xchain, *sendInfo, []byte, *big.Int) {
 		si.dstIdx, si.dstName, si.expectFail = -1, "nowhere-1", "unknown_dst"
 	case dsel == -2:
 		si.dstIdx, si.dstName, si.expectFail = -1, c.Cfg.Name, "self_dst"
+	case dsel <= -4:
+		// a spelling that is not the name of any client but looks like (or path-cleans to) a known one
+		x := -4 - dsel
+		n := others[kernel.Mod(x/16, len(others))].Cfg.Name
+		forms := []string{n + "/", n + "/.", "./" + n, "x/../" + n, n + " ", " " + n, strings.ToUpper(n), n + "\x00", n + "//", "clients/" + n, "/" + n, n + "/sequences", n + "/..", "../" + n, n[:len(n)-1], n + n[len(n)-1:]}
+		si.dstIdx, si.dstName, si.expectFail = -1, forms[kernel.Mod(x, len(forms))], "lookalike_dst"
+		if w.chainByName(si.dstName) != nil {
+			si.dstName, si.expectFail = "nowhere-1", "unknown_dst"
+		}
+		w.rec.Probe("send.lookalike_dst")
 	default:
 		si.dstIdx, si.dstName, si.expectFail = -1, "", "empty_dst"
 	}
@@ -645,6 +655,26 @@ func (w *world) submitRelay(r int, m *wireMsg, hsel int64, stale bool, dup bool)
 		if v != hi {
 			w.rec.Fault("net.delay")
 		}
+	}
+	if d := w.proofDelay(to, from); d > 0 && hsel == 0 && !stale {
+		// an honest relayer waits for the confirmation delay: the newest height the client processed long
+		// enough ago; if there is none yet, it makes sure a height is being processed and comes back later
+		best := int64(-1)
+		for ah := range to.accepted[from.idx] {
+			if int64(ah)-1 < lo || int64(ah)-1 > hi || int64(ah)-1 <= best {
+				continue
+			}
+			if pt, ok := w.processedAt(to, from, ah); ok && pt+d <= uint64(w.now.UnixNano()) {
+				best = int64(ah) - 1
+			}
+		}
+		if best < 0 {
+			w.ensureUpdate(r, to, from, hi+1)
+			w.rec.Probe("relay.waits_for_delay")
+			w.rec.Logf("relay rel%d %s %s: waiting for the confirmation delay", r, m.kind, m.key)
+			return
+		}
+		v = best
 	}
 	p, err := DecodePacket(m.packet)
 	if err != nil {
